@@ -171,6 +171,12 @@ def main(argv: List[str]) -> int:
                     print(f"[{prop}] {label}: counterexample {first} did not reproduce concretely - job run again", flush=True)
                     r = _run_worker(["explore", modname, hname, json.dumps(payload)], payload["timeout"] * 3 + 120)
                     r["rerun_after_nonreproducing_counterexample"] = first
+            if r.get("status") == "ERROR" and str(r.get("error", "")).startswith("NotDeterministic") and meta[(modname, hname)].get("kind") != "smt":
+                # seen only on heavily loaded machines, always after a path had been abandoned (solver / path budget) in
+                # the same job: the abandoned path leaves CrossHair's decision tree inconsistent. Run the job once more.
+                print(f"[{prop}] {label}: NotDeterministic after {r.get('unknown_paths')} abandoned path(s) - job run again", flush=True)
+                r = _run_worker(["explore", modname, hname, json.dumps(payload)], payload["timeout"] * 3 + 120)
+                r["rerun_after_not_deterministic"] = True
             results.append((label, modname, hname, payload, k, r))
             print(
                 f"[{prop}] {label} fixed={json.dumps(payload.get('fixed', {}))} -> {r.get('status')} "
